@@ -25,6 +25,7 @@ import (
 	"time"
 	"unsafe"
 
+	"github.com/Ptt-official-app/go-pttbbs/bbs"
 	"github.com/Ptt-official-app/go-pttbbs/cache"
 	"github.com/Ptt-official-app/go-pttbbs/ptt"
 	"github.com/Ptt-official-app/go-pttbbs/ptttype"
@@ -127,6 +128,55 @@ func parseCsvBytes(s string, maxLen int) ([][]byte, bool) {
 		out = append(out, b)
 	}
 	return out, true
+}
+
+// parseUsers: csv of `<hex id>` or `<hex id>=<level>` (`.` = empty slot), `-` = none.
+func parseUsers(s string) ([][]byte, []uint32, bool) {
+	if s == "-" {
+		return nil, nil, true
+	}
+	var ids [][]byte
+	var lv []uint32
+	for _, t := range strings.Split(s, ",") {
+		if t == "." {
+			ids, lv = append(ids, []byte{}), append(lv, 0)
+			continue
+		}
+		p := strings.Split(t, "=")
+		if len(p) > 2 || p[0] == "-" {
+			return nil, nil, false
+		}
+		b, ok := parseBytes(p[0], 13)
+		if !ok {
+			return nil, nil, false
+		}
+		l := uint32(0)
+		if len(p) == 2 {
+			if l, ok = parseU32(p[1]); !ok {
+				return nil, nil, false
+			}
+		}
+		ids, lv = append(ids, b), append(lv, l)
+	}
+	return ids, lv, true
+}
+
+func csvUsers(ids [][]byte, lv []uint32) string {
+	if len(ids) == 0 {
+		return "-"
+	}
+	ss := make([]string, len(ids))
+	for i, b := range ids {
+		switch {
+		case len(b) == 0:
+			ss[i] = "."
+		case i < len(lv) && lv[i] != 0:
+			ss[i] = fmt.Sprintf("%s=%d", hex.EncodeToString(b), lv[i])
+		default:
+			ss[i] = hex.EncodeToString(b)
+		}
+	}
+	return strings.Join(ss, ",")
 }
 
 func csvBytes(bs [][]byte) string {
@@ -416,6 +466,7 @@ func (s *slotSpec) image(seed uint64, i int) []byte {
 
 type resetSpec struct {
 	users   [][]byte
+	levels  []uint32
 	letters []byte
 	dirs    [][]byte
 	pool    [][]byte
@@ -425,7 +476,7 @@ type resetSpec struct {
 }
 
 func (r *resetSpec) line() string {
-	ws := []string{"reset", csvBytes(r.users), hx.Hex(r.letters), csvBytes(r.dirs), csvBytes(r.pool),
+	ws := []string{"reset", csvUsers(r.users, r.levels), hx.Hex(r.letters), csvBytes(r.dirs), csvBytes(r.pool),
 		strconv.FormatUint(r.seed, 10), strconv.Itoa(r.tail), strconv.Itoa(len(r.slots))}
 	for _, s := range r.slots {
 		ws = append(ws, s.token())
@@ -437,7 +488,7 @@ func parseReset(ws []string) (*resetSpec, bool) {
 	if len(ws) < 7 {
 		return nil, false
 	}
-	users, ok1 := parseCsvBytes(ws[0], 13)
+	users, levels, ok1 := parseUsers(ws[0])
 	letters, ok2 := parseBytes(ws[1], 256)
 	dirs, ok3 := parseCsvBytes(ws[2], 13)
 	pl, ok4 := parseCsvBytes(ws[3], 13)
@@ -448,7 +499,7 @@ func parseReset(ws []string) (*resetSpec, bool) {
 		len(ws)-7 != int(nrec) {
 		return nil, false
 	}
-	r := &resetSpec{users: users, letters: letters, dirs: dirs, pool: pl, seed: seed, tail: int(tail)}
+	r := &resetSpec{users: users, levels: levels, letters: letters, dirs: dirs, pool: pl, seed: seed, tail: int(tail)}
 	for _, t := range ws[7:] {
 		s, ok := parseSlot(t)
 		if !ok {
@@ -473,6 +524,9 @@ func doReset(r *resetSpec) string {
 		u := &ptttype.UserecRaw{}
 		if i < len(r.users) {
 			copy(u.UserID[:], r.users[i])
+			if i < len(r.levels) {
+				u.UserLevel = ptttype.PERM(r.levels[i])
+			}
 		}
 		must(binary.Write(&ub, binary.LittleEndian, u))
 	}
@@ -570,6 +624,54 @@ func parseReq(ws []string) (*request, bool) {
 	return q, true
 }
 
+type bbsArgs struct {
+	userID         []byte
+	cls            int32
+	name           []byte
+	bclass, btitle []byte
+	bms            [][]byte
+	attr, level    uint32
+	chess          uint32
+	isGroup        bool
+}
+
+func (a *bbsArgs) line() string {
+	g := "0"
+	if a.isGroup {
+		g = "1"
+	}
+	return fmt.Sprintf("bcreate %s %d %s %s %s %s %d %d %d %s", hx.Hex(a.userID), a.cls, hx.Hex(a.name), hx.Hex(a.bclass),
+		hx.Hex(a.btitle), csvBytes(a.bms), a.attr, a.level, a.chess, g)
+}
+
+func parseBbs(ws []string) (*bbsArgs, bool) {
+	if len(ws) != 10 {
+		return nil, false
+	}
+	a := &bbsArgs{}
+	var ok [9]bool
+	a.userID, ok[0] = parseBytes(ws[0], 32)
+	a.cls, ok[1] = parseI32(ws[1])
+	a.name, ok[2] = parseBytes(ws[2], 32)
+	a.bclass, ok[3] = parseBytes(ws[3], 64)
+	a.btitle, ok[4] = parseBytes(ws[4], 128)
+	a.bms, ok[5] = parseCsvBytes(ws[5], 16)
+	a.attr, ok[6] = parseU32(ws[6])
+	a.level, ok[7] = parseU32(ws[7])
+	ch, okc := parseNat(ws[8], 3)
+	a.chess, ok[8] = uint32(ch), okc && ch <= 255
+	for _, o := range ok {
+		if !o {
+			return nil, false
+		}
+	}
+	if ws[9] != "0" && ws[9] != "1" {
+		return nil, false
+	}
+	a.isGroup = ws[9] == "1"
+	return a, true
+}
+
 func errClass(err error) string {
 	switch {
 	case errors.Is(err, ptttype.ErrInvalidBid):
@@ -634,6 +736,46 @@ func exec(i int, line string) (out, label string, nontrivial bool) {
 			return o, "newbm:" + o, true
 		}
 		return hx.Hex(bm[:]), "newbm", true
+	case "bcreate":
+		a, ok := parseBbs(ws[1:])
+		if !ok || !haveState {
+			return "bad-op", "bad-op", false
+		}
+		before := snap()
+		bms := make([]bbs.UUserID, len(a.bms))
+		for k, b := range a.bms {
+			bms[k] = bbs.UUserID(string(b))
+		}
+		var sum *bbs.BoardSummary
+		var err error
+		o := hx.CallT(8*time.Second, func() string {
+			sum, err = bbs.CreateBoard(bbs.UUserID(string(a.userID)), ptttype.Bid(a.cls), string(a.name), a.bclass, a.btitle, bms,
+				ptttype.BrdAttr(a.attr), ptttype.PERM(a.level), ptttype.ChessCode(a.chess), a.isGroup)
+			return ""
+		})
+		res := o
+		slot := -1
+		switch {
+		case o != "":
+		case errors.Is(err, bbs.ErrInvalidParams):
+			res = "invalid-params"
+		case errors.Is(err, ptttype.ErrInvalidUserID):
+			res = "invalid-user"
+		case err != nil:
+			res = errClass(err)
+		case sum == nil:
+			res = "ok:nil"
+		default:
+			res = fmt.Sprintf("ok:%d", sum.Bid)
+			slot = int(sum.Bid) - 1
+		}
+		now := snap()
+		br := P.judgeBbs(i, line, a, res, slot, before, now)
+		cls := res
+		if strings.HasPrefix(res, "ok:") {
+			cls = "ok"
+		}
+		return res + " " + observe(before, now, slot), "bcreate:" + cls + ":" + br, true
 	case "create":
 		q, ok := parseReq(ws[1:])
 		if !ok || !haveState {
